@@ -120,6 +120,8 @@ theorem Inst.frame {s s' : State} {t : Template} {key : Int} {p : Nat} {locs : L
 
 theorem EntryOK.frame {env : Env} {s s' : State} {op : Nat} {pr : PerKeyRec} {er er' : ExpertRec} {key : Int}
     {p d : Nat} (G : XG s s') (ht : s'.top = s.top) (hc : er'.children = er.children)
+    (hin : ((V s).nodeD p).recomputedAt = -1 → ((V s').nodeD p).recomputedAt = -1 ∨
+      ∃ ed, ed ∈ er.children ∧ ed.dep = d ∧ ExpertH.Below s ed.child p)
     (h : EntryOK env s op pr er key p d) : EntryOK env s' op pr er' key p d where
   plt := by rw [G.size]; exact h.plt
   pnode := by
@@ -130,8 +132,11 @@ theorem EntryOK.frame {env : Env} {s s' : State} {op : Nat} {pr : PerKeyRec} {er
     obtain ⟨ed, locs, h1, h2, h3, h4, h5, h6⟩ := h.edge
     exact ⟨ed, locs, by rw [hc]; exact h1, h2, h3, h4.frame G.size G.kind ht, h5, h6⟩
   input := by
-    obtain ⟨ed, h1, h2, h3⟩ := h.input
-    exact ⟨ed, by rw [hc]; exact h1, h2, G.below h3⟩
+    rcases h.input with ⟨ed, h1, h2, h3⟩ | h0
+    · exact Or.inl ⟨ed, by rw [hc]; exact h1, h2, G.below h3⟩
+    · rcases hin h0 with h1 | ⟨ed, h1, h2, h3⟩
+      · exact Or.inr h1
+      · exact Or.inl ⟨ed, by rw [hc]; exact h1, h2, G.below h3⟩
   consec := by
     obtain ⟨ed, h1, h2, h3, h4⟩ := h.consec
     exact ⟨ed, by rw [hc]; exact h1, h2, h3.frame G.size G.kind ht, by rw [G.size]; exact h4⟩
@@ -140,6 +145,9 @@ theorem OpOK.frame {env : Env} {s s' : State} {op : Nat} {pr : PerKeyRec} (G : X
     (hobs : ∀ m, (s'.nodeD m).observers = (s.nodeD m).observers)
     (hconv : (s'.nodeD (pr.result - 1)).value = (s.nodeD (pr.result - 1)).value)
     (hlc : s'.isStale pr.lhsChange = s.isStale pr.lhsChange)
+    (hin : ∀ (e : Nat) (er : ExpertRec) (key : Int) (p d : Nat), (s.nodeD pr.result).kind = .expert e →
+      s.experts[e]? = some er → (key, (p, d)) ∈ pr.prevNodes → ((V s).nodeD p).recomputedAt = -1 →
+      ((V s').nodeD p).recomputedAt = -1 ∨ ∃ ed, ed ∈ er.children ∧ ed.dep = d ∧ ExpertH.Below s ed.child p)
     (h : OpOK env s op pr) : OpOK env s' op pr where
   cut := h.cut
   own c x hc hx hp := by
@@ -152,7 +160,7 @@ theorem OpOK.frame {env : Env} {s s' : State} {op : Nat} {pr : PerKeyRec} (G : X
     obtain ⟨x, e, er, hN, he, hpk, ⟨d0, rest, hc, hr, hd⟩, hE, hO⟩ := h.nodes
     obtain ⟨er', he', -, -, k3, k4⟩ := G.fwd e er he
     refine ⟨x, e, er', ?_, he', k4.trans hpk, ⟨d0, rest, k3.trans hc, hr, hd⟩,
-      fun key p d hin => (hE key p d hin).frame G ht k3, fun k hk => ?_⟩
+      fun key p d hm => (hE key p d hm).frame G ht k3 (hin e er key p d hN.result he hm), fun k hk => ?_⟩
     · exact ⟨hN.pos, hN.lc, by rw [G.size]; exact hN.lt, by rw [G.kind]; exact hN.conv, hN.xlt,
         by rw [G.kind]; exact hN.xvar, by rw [G.kind]; exact hN.result, by rw [G.kind]; exact hN.lcKind, by rw [G.kind]; exact hN.out⟩
     · rw [ht]; exact hO k hk
@@ -168,10 +176,15 @@ theorem pkok_frame {env : Env} {s s' : State} (P : PKOK env s) (G : XG s s') (hp
     (hconv : ∀ (op : Nat) (pr : PerKeyRec), s.perkeys[op]? = some pr →
       (s'.nodeD (pr.result - 1)).value = (s.nodeD (pr.result - 1)).value)
     (hlc : ∀ (op : Nat) (pr : PerKeyRec), s.perkeys[op]? = some pr →
-      s'.isStale pr.lhsChange = s.isStale pr.lhsChange) : PKOK env s' where
+      s'.isStale pr.lhsChange = s.isStale pr.lhsChange)
+    (hin : ∀ (op : Nat) (pr : PerKeyRec) (e : Nat) (er : ExpertRec) (key : Int) (p d : Nat), s.perkeys[op]? = some pr →
+      (s.nodeD pr.result).kind = .expert e → s.experts[e]? = some er → (key, (p, d)) ∈ pr.prevNodes →
+      ((V s).nodeD p).recomputedAt = -1 →
+      ((V s').nodeD p).recomputedAt = -1 ∨ ∃ ed, ed ∈ er.children ∧ ed.dep = d ∧ ExpertH.Below s ed.child p) :
+    PKOK env s' where
   ops op pr h := by
     rw [hp] at h
-    exact (P.ops op pr h).frame G ht hobs (hconv op pr h) (hlc op pr h)
+    exact (P.ops op pr h).frame G ht hobs (hconv op pr h) (hlc op pr h) (fun e er key p d => hin op pr e er key p d h)
   recs e er' he' := by
     obtain ⟨er, he, -, h2, -, h4⟩ := G.bwd e er' he'
     obtain ⟨op, pr, h, hcase⟩ := P.recs e er he
